@@ -276,6 +276,26 @@ def gen_hidden(rng, cfg=None):
     return {"cfg": cfg, "frames": frames, "family": "hidden_nodes"}
 
 
+def gen_spurious(rng, cfg=None):
+    """Scene family `spurious_empty` (seeded C10-r5m2): a `separated` scene plus 1–2 spurious detections
+    without any visible keypoint (all-NaN points, or every keypoint flagged visible=False) inserted at
+    random positions of random frames.  They carry label −1: the identity oracle applies to the real,
+    well-separated animals only (the spurious ones merely must not break anything); NaN scores are
+    outside the model, so these scenes are judged by the oracle only."""
+    case = gen_scene(rng, cfg=cfg)
+    frames = [list(dets) for dets in case["frames"]]
+    hit = 0
+    for f in range(1, len(frames)):
+        if frames[f] and rng.random() < 0.5:
+            for _ in range(rng.choice([1, 1, 2])):
+                d = [500.0 + rng.randrange(0, 64) / 16, 500.0, 0.9, -1, 16, rng.choice(["allnan", "allhid"])]
+                frames[f].insert(rng.randrange(len(frames[f]) + 1), d)
+                hit += 1
+    if not hit and len(frames) > 1 and frames[-1]:
+        frames[-1].insert(0, [500.0, 500.0, 0.9, -1, 16, "allnan"])
+    return {"cfg": case["cfg"], "frames": frames, "family": "spurious_empty"}
+
+
 def gen_circle(rng, cfg=None, laps_frames=100):
     """Scene family `circle` (seeded C10-r2m3): animals at opposite ends of a circle of radius 100 px
     walk around it (4.5° ≈ 7.9 px per frame) for more than a full lap, so each one walks over ground
@@ -302,16 +322,24 @@ def gen_circle(rng, cfg=None, laps_frames=100):
 
 # --------------------------------------------------------------------------- ground-truth oracle
 def oracle(case, frames):
-    """same animal ↔ same track on every frame; newcomer gets a track nobody held."""
+    """same animal ↔ same track on every frame; newcomer gets a track nobody held.  Applies to the REAL
+    animals (label ≥ 0); spurious empty detections (label < 0) only have to be handled without an exception.
+    Identity is what the public API hands back: the `sio.Track` OBJECT (Track compares by identity
+    downstream, e.g. in `Labels`), so besides the ids the objects must be one per animal over the whole
+    history — also across absences — and distinct animals must have distinct objects."""
     bad = []
     track_of, animal_of = {}, {}
+    obj_of, animal_of_obj = {}, {}
     for f, fr in enumerate(frames):
         if fr["res"] != "ok":
             bad.append((f, fr["res"] + ":" + fr.get("msg", "")[:60]))
             break
         got = dict(fr["out"])
+        gobj = dict(fr.get("out_obj", []))
         for i, det in enumerate(case["frames"][f]):
             a = det[3]
+            if a < 0:
+                continue
             t = got.get(i)
             if t is None:
                 bad.append((f, f"animal {a} has no track"))
@@ -322,8 +350,16 @@ def oracle(case, frames):
                 bad.append((f, f"track {t} of animal {animal_of[t]} given to animal {a}"))
             track_of.setdefault(a, t)
             animal_of.setdefault(t, a)
+            o = gobj.get(i)
+            if o is not None:
+                if obj_of.setdefault(a, o) != o:
+                    bad.append((f, f"animal {a} comes back with a different sio.Track object (same id {t})"))
+                if animal_of_obj.setdefault(o, a) != a:
+                    bad.append((f, f"animals {animal_of_obj[o]} and {a} share one sio.Track object"))
         if bad:
             break
+    if not bad and len(set(obj_of.values())) != len(track_of):
+        bad.append((len(frames) - 1, f"{len(set(obj_of.values()))} distinct sio.Track objects for {len(track_of)} identities"))
     return bad
 
 
@@ -536,6 +572,11 @@ def main(chk):
         cases.append(gen_hidden(chk.rng, cfg=cfg))
     for _ in range(chk.n(30, 500)):
         cases.append(gen_hidden(chk.rng))
+    # spurious detections without visible keypoints next to the real animals (seeded C10-r5m2); oracle only
+    for cfg in all_configs():
+        cases.append(gen_spurious(chk.rng, cfg=cfg))
+    for _ in range(chk.n(30, 500)):
+        cases.append(gen_spurious(chk.rng))
     # long revisiting trajectories (seeded C10-r2m3): local_queues + mean in every matcher / feature
     # combination, plus a few random configurations
     for cfg in [c for c in all_configs() if c["candidates_method"] == "local_queues"
@@ -565,7 +606,7 @@ def main(chk):
     for case, frames, (o, n) in zip(cases, runs, spans):
         mo = [parse_model(x) for x in outs[o + 1:o + n]]
         cfg = case["cfg"]
-        nanimals = len({d[3] for dets in case["frames"] for d in dets})
+        nanimals = len({d[3] for dets in case["frames"] for d in dets if d[3] >= 0})
         tags = [cfg["candidates_method"], cfg["track_matching_method"], cfg["features"],
                 "red_" + cfg["scoring_reduction"], f"window_{cfg['window_size']}", f"animals_{nanimals}"]
         if any(len(a) < len(b) for a, b in zip(case["frames"], case["frames"][1:])):
@@ -575,7 +616,12 @@ def main(chk):
                  sample={"cfg": cfg, "frames": [[d[3] for d in dets] for dets in case["frames"]],
                          "impl": [fr["out"] if fr["res"] == "ok" else fr["res"] for fr in frames]}, tags=tags)
         first = None
+        nan_scene = c09.has_allnan(case)
+        if nan_scene:
+            chk.tag("nan_score_oracle_only")
         for f, fr in enumerate(frames):
+            if nan_scene:
+                break
             d = compare_frame(case, fr, mo[f] if f < len(mo) else None)
             if d:
                 first = (f, d, impl_fields(case, fr), mo[f] if f < len(mo) else None)
@@ -585,6 +631,8 @@ def main(chk):
             sigs = c10_signatures(case, frames, bad)
             small = shrink_scene(case, bad[0][0], sigs) if len(chk.failing) < 4 else case
             chk.fail(f"C10 fails at frame {bad[0][0]}: {bad[0][1]}", small, bad[:3], sigs)
+        elif nan_scene:
+            pass        # hypotheses of the theorems (total scores) do not apply
         elif case["cfg"]["scoring_method"] == "oks" and case.get("family") == "degenerate_oks":
             # F-C10c region: zero-area poses make every OKS 0 (ties); the scene passed the oracle only because
             # the listing order happened to agree — the float scores do not satisfy the theorems' hypotheses
